@@ -90,7 +90,7 @@ theorem ser_dom_node (R : RParser) (D : ToDom) (univ : List Mark) : ∀ (k : Nod
       obtain ⟨tag, pw⟩ := p
       rw [her] at hrest
       simp only [Bool.and_eq_true] at hrest
-      obtain ⟨⟨⟨⟨hko, _⟩, _⟩, _⟩, _⟩ := hrest
+      obtain ⟨⟨⟨⟨⟨hko, _⟩, _⟩, _⟩, _⟩, _⟩ := hrest
       have hfill : serFrag (annotateList R.P.S D univ kids) [] [] = kids.map (htmlOf R.P.S D univ) := by
         rw [serFrag_nomarks R.P.S D univ kids [] hnm.2]; rfl
       have ih := ser_dom_list R D univ kids _ t none hnm.2 hko hnorm.1 hnorm.2
